@@ -12,7 +12,7 @@
 		VP_SZ(g_aio_close_calls); VP_SZ(g_aio_reset_calls); VP_SZ(g_start_calls); g_aio_start_ok = nondet_bool(); \
 		g_rand_last = nondet_u32(); VP_SZ(g_rand_calls);                      \
 		VP_SZ(g_close_calls); g_close_code = nondet_u16(); VP_SZ(g_finish_calls); VP_SZ(g_ctl_calls); g_ctl_op = nondet_u8(); g_ctl_len = nondet_size_t(); \
-		VP_HAVOC_FQ(g_fin_rxq); g_fin_inmsg = nondet_bool(); g_the_frame = nondet_ptr(); g_fin_flen = nondet_size_t(); g_fin_fbuf = nondet_ptr(); g_fin_fb = nondet_u8(); g_eq = nondet_int(); \
+		VP_HAVOC_FQ(g_fin_rxq); g_fin_inmsg = nondet_bool(); g_the_frame = nondet_ptr(); g_fin_flen = nondet_size_t(); g_fin_fbuf = nondet_ptr(); g_fin_fb = nondet_u8(); g_eq = nondet_int(); g_u64 = nondet_u64(); \
 		VP_HAVOC_SYNC();                                                      \
 	} while (0)
 
@@ -20,3 +20,4 @@ void h_init_control(void) { ws_frame **fp; nni_ws *ws; uint8_t op; const uint8_t
 void h_close(void) { nni_ws *ws; uint16_t code; VP_HAVOC_GHOSTS(); ws_close(ws, code); VP_CANARY(); }
 void h_start_read(void) { nni_ws *ws; VP_HAVOC_GHOSTS(); ws_start_read(ws); VP_CANARY(); }
 void h_read_cb(void) { void *arg; VP_HAVOC_GHOSTS(); ws_read_cb(arg); VP_CANARY(); }
+void h_read_frame_cb(void) { nni_ws *ws; ws_frame *f; VP_HAVOC_GHOSTS(); ws_read_frame_cb(ws, f); VP_CANARY(); }
